@@ -720,7 +720,7 @@ func ruleF7f(c *Ctx) *RuleResult {
 			n++
 			key := fmt.Sprintf("%s|from-first-segment#%d", FuncName(fn), n)
 			what := "starting at the first listed segment is control dependent on PlaylistType == VOD"
-			conds := ifsOn(fn, func(v ssa.Value) bool {
+			isVODTest := func(v ssa.Value) bool {
 				bo, ok := v.(*ssa.BinOp)
 				if !ok || bo.Op != token.EQL {
 					return false
@@ -738,8 +738,16 @@ func ruleF7f(c *Ctx) *RuleResult {
 					}
 				}
 				return false
-			})
-			if len(conds) > 0 && onlyIf(fn, u, conds, true) {
+			}
+			conds := ifsOn(fn, isVODTest)
+			// the test may be one operand of a `&&` that a switch case evaluates into a phi: dominating facts
+			byFact := false
+			for _, f := range factsAt(u.Block()) {
+				if f.pol && isVODTest(f.cond) {
+					byFact = true
+				}
+			}
+			if byFact || len(conds) > 0 && onlyIf(fn, u, conds, true) {
 				r.ok(key, c.Pos(u.Pos()), FuncName(fn), what, "guarded by *PlaylistType == VOD")
 			} else {
 				r.fail(key, c.Pos(u.Pos()), FuncName(fn), what, "the branch is taken for every typed playlist: a still-growing EVENT playlist is joined at its first segment instead of third from last, and with more than six segments the next reload ends with `playback is too late`")
@@ -978,7 +986,7 @@ func ruleT3b(c *Ctx) *RuleResult {
 }
 
 func ruleT7k(c *Ctx) *RuleResult {
-	r := &RuleResult{Floor: 2, FloorWhat: "recorded sizes of disk parts"}
+	r := &RuleResult{Floor: 1, FloorWhat: "recorded sizes of disk parts"}
 	sizeF := c.Field("pkg/storage", "partDisk", "size")
 	if sizeF == nil {
 		r.undecided("storage.partDisk.size not found")
